@@ -4,6 +4,7 @@
      node/state_machine.go  kvStoreSM.ApplyRaftRequest   (the per-request loop: parse failure, non-redis
                             requests, cluster-syncer conflict pre-check, IsBatchable / BeginBatch /
                             CommitBatch-before-a-non-batchable-command, handler lookup, AddBatchKey,
+                            a batchable command joins a batch only if isValidBatchableWrite,
                             handler call, error -> Trigger + AbortBatchForError when IsNeedAbortError,
                             success -> AddBatchRsp when batching else Trigger, CommitBatch at the end of
                             a list that carries a ReqId)
@@ -45,8 +46,10 @@ Definition mem_bytes (x : bytes) (l : list bytes) : bool := existsb (bytes_eqb x
 Inductive kind := KRedis | KOther | KGarbage.
 
 (* rname = lower-cased command name, rpk = cmd.Args[1], rnargs = len(cmd.Args);
-   rbody stands for the rest of the entry (argument bytes and the timestamp carried by the entry) *)
-Record req := mkReq { rid : N; rkind : kind; rname : bytes; rpk : bytes; rnargs : N; rbody : N }.
+   rbody stands for the rest of the entry (argument bytes and the timestamp carried by the entry);
+   rvalid = isValidBatchableWrite(cmdName, cmd.Args, reqTs): a pure function of the entry (the argument
+   checks a batchable handler makes before it writes anything), so it is a field of the request *)
+Record req := mkReq { rid : N; rkind : kind; rname : bytes; rpk : bytes; rnargs : N; rbody : N; rvalid : bool }.
 
 Inductive outcome (W R : Type) :=
 | Ok (ws : list W) (r : R)          (* writes put into the batch (or committed at once), reply *)
@@ -113,25 +116,26 @@ Section Batching.
         if rnargs q <? 2 then None
         else if conflict_on && conflicts q s then Some (st, s, [(rid q, reply_nil)], [])
         else
-          let b := is_batchable st q in
+          let bq := is_batchable st q in            (* batch.IsBatchable(...) is always called ... *)
+          let b := bq && rvalid q in                (* ... && isValidBatchableWrite(...) *)
           let '(st1, s1, out1, ev1) :=
             if b then (if batching st then (st, s, [], []) else (begin_op st, s, [], [EB]))
             else let '(a, c, d) := commit_op st s in (a, c, d, [EC (batching st)]) in
           match handler q s1 with
-          | NoHandler => Some (st1, s1, out1 ++ [(rid q, err_invalid)], EQ b :: ev1)
+          | NoHandler => Some (st1, s1, out1 ++ [(rid q, err_invalid)], EQ bq :: ev1)
           | Fail e ab =>
               let st2 := if batching st1 then add_key st1 (rpk q) else st1 in
               let evk := if batching st1 then [EK] else [] in
               if ab then
                 let '(st3, s3, out3) := abort_op st2 s1 e in
-                Some (st3, s3, out1 ++ (rid q, e) :: out3, EQ b :: ev1 ++ evk ++ [EA (batching st2)])
-              else Some (st2, s1, out1 ++ [(rid q, e)], EQ b :: ev1 ++ evk)
+                Some (st3, s3, out1 ++ (rid q, e) :: out3, EQ bq :: ev1 ++ evk ++ [EA (batching st2)])
+              else Some (st2, s1, out1 ++ [(rid q, e)], EQ bq :: ev1 ++ evk)
           | Ok ws r =>
               let st2 := if batching st1 then add_key st1 (rpk q) else st1 in
               let evk := if batching st1 then [EK] else [] in
               if batching st2
-              then Some (add_rsp st2 (rid q) r ws, s1, out1, EQ b :: ev1 ++ evk ++ [ER])
-              else Some (st2, commit_ws s1 ws, out1 ++ [(rid q, r)], EQ b :: ev1 ++ evk)
+              then Some (add_rsp st2 (rid q) r ws, s1, out1, EQ bq :: ev1 ++ evk ++ [ER])
+              else Some (st2, commit_ws s1 ws, out1 ++ [(rid q, r)], EQ bq :: ev1 ++ evk)
           end
     end.
 
